@@ -44,6 +44,10 @@ type wpair[K any] struct {
 	V int `json:"v" yaml:"v"`
 }
 
+func be32(x int32) []byte {
+	return []byte{byte(uint32(x) >> 24), byte(uint32(x) >> 16), byte(uint32(x) >> 8), byte(uint32(x))}
+}
+
 func unhexKey(k hexKey) []byte {
 	b, err := hex.DecodeString(string(k))
 	if err != nil {
@@ -56,6 +60,7 @@ func init() {
 	part.RegisterKeyType[hexKey](unhexKey)
 	part.RegisterKeyType[elem[hexKey]](func(e elem[hexKey]) []byte { return unhexKey(e.K) })
 	part.RegisterKeyType[elem[string]](func(e elem[string]) []byte { return []byte(e.K) })
+	part.RegisterKeyType[elem[int32]](func(e elem[int32]) []byte { return be32(e.K) })
 }
 
 type kvp struct {
@@ -70,6 +75,7 @@ type runner interface {
 type world[K comparable] struct {
 	toK   func([]byte) K
 	fromK func(K) []byte
+	valid func([]byte) bool // nil: every byte string is a key; else which ones are (fixed-width key types)
 	maps  map[int]part.Map[K, int]
 	sets  map[int]part.Set[elem[K]]
 	txns  map[int]part.MapTxn[K, int]
@@ -221,7 +227,12 @@ func b2s(b bool) string {
 // dump observes every register; fresh = register written by the current op ("m3"/"s2"/"t1" or "").
 func (w *world[K]) dump(probe []byte, fresh string) string {
 	var sb strings.Builder
-	pk := w.toK(probe)
+	// a probe that is not a key of this key type (the empty key for int32) is absent everywhere
+	pkOK := w.valid == nil || w.valid(probe)
+	var pk K
+	if pkOK {
+		pk = w.toK(probe)
+	}
 	check := func(name string, got []kvp, n int, sh map[string]int) {
 		clause := "persist"
 		if name == fresh {
@@ -240,7 +251,11 @@ func (w *world[K]) dump(probe []byte, fresh string) string {
 	for _, i := range ids(w.maps) {
 		m := w.maps[i]
 		all := take2(w, m.All(), 0)
-		v, ok := m.Get(pk)
+		var v int
+		var ok bool
+		if pkOK {
+			v, ok = m.Get(pk)
+		}
 		fmt.Fprintf(&sb, " m%d=%d[%s]g%s", i, m.Len(), fmtKV(all), optv(v, ok))
 		check("m"+strconv.Itoa(i), all, m.Len(), w.shM[i])
 		if sv, sok := w.shM[i][string(probe)]; sok != ok || (ok && sv != v) {
@@ -250,7 +265,7 @@ func (w *world[K]) dump(probe []byte, fresh string) string {
 	for _, i := range ids(w.sets) {
 		s := w.sets[i]
 		all := take1(w, s.All(), 0)
-		has := s.Has(elem[K]{K: pk})
+		has := pkOK && s.Has(elem[K]{K: pk})
 		fmt.Fprintf(&sb, " s%d=%d[%s]h%s", i, s.Len(), fmtKV(all), b2s(has))
 		check("s"+strconv.Itoa(i), all, s.Len(), w.shS[i])
 		if _, sok := w.shS[i][string(probe)]; sok != has {
@@ -260,7 +275,11 @@ func (w *world[K]) dump(probe []byte, fresh string) string {
 	for _, i := range ids(w.txns) {
 		t := w.txns[i]
 		all := take2(w, t.All(), 0)
-		v, ok := t.Get(pk)
+		var v int
+		var ok bool
+		if pkOK {
+			v, ok = t.Get(pk)
+		}
 		fmt.Fprintf(&sb, " t%d=%d[%s]g%s", i, t.Len(), fmtKV(all), optv(v, ok))
 		check("t"+strconv.Itoa(i), all, t.Len(), w.shT[i])
 		if sv, sok := w.shT[i][string(probe)]; sok != ok || (ok && sv != v) {
@@ -700,8 +719,12 @@ func (w *world[K]) op(f []string) string {
 		// mechanism-level: whether ToBytesFunc() is set (nil for a never-touched zero Set)
 		fn := w.sets[atoi(f[1])].ToBytesFunc()
 		if fn != nil {
-			e := elem[K]{K: w.toK([]byte("a")), T: 7}
-			if !bytes.Equal(fn(e), []byte("a")) {
+			probe := []byte("a")
+			if w.valid != nil && !w.valid(probe) {
+				probe = []byte("abcd")
+			}
+			e := elem[K]{K: w.toK(probe), T: 7}
+			if !bytes.Equal(fn(e), probe) {
 				w.flag("tobytes")
 			}
 		}
@@ -749,7 +772,16 @@ func (w *world[K]) op(f []string) string {
 type eng struct{ w runner }
 
 func (e *eng) Case(id string) {
-	if strings.HasPrefix(id, "s") {
+	if strings.HasPrefix(id, "i") {
+		// part.Map[int32,int] through the built-in key type registration (4-byte keys only)
+		e.w = newWorld[int32](func(b []byte) int32 {
+			if len(b) != 4 {
+				panic("int32 key must have 4 bytes")
+			}
+			return int32(uint32(b[0])<<24 | uint32(b[1])<<16 | uint32(b[2])<<8 | uint32(b[3]))
+		}, be32)
+		e.w.(*world[int32]).valid = func(b []byte) bool { return len(b) == 4 }
+	} else if strings.HasPrefix(id, "s") {
 		e.w = newWorld[string](func(b []byte) string { return string(b) }, func(s string) []byte { return []byte(s) })
 	} else {
 		e.w = newWorld[hexKey](func(b []byte) hexKey { return hexKey(hex.EncodeToString(b)) }, unhexKey)
